@@ -211,7 +211,7 @@ class TaskingEngine(metaclass=ABCMeta):
         Args:
             sensor_info_list (list): list of dict
         """
-        self.sensor_changes = {}
+        # [NOTE]: `sensor_changes` accumulates over all jobs of a step, it is reset at the start of `assess()`
         for sensor_info in sensor_info_list:
             self.sensor_changes[sensor_info["sensor_id"]] = {
                 "boresight": sensor_info["boresight"],
